@@ -150,6 +150,10 @@ def vspec_for(draw, spec, t, hard=True, finite=False, depth=0, omit_defaults=Tru
         return draw(scalar_vspec(t, hard, finite))
     k = t[0]
     rec = lambda tt: vspec_for(spec, tt, hard, finite, depth + 1, omit_defaults)
+    if depth > 6 and k in ('list', 'seq', 'mseq', 'dict', 'map', 'mmap', 'opt'):
+        # recursive models: stop
+        return {'list': ['list', []], 'seq': ['list', []], 'mseq': ['list', []],
+                'opt': ['none']}.get(k, ['dict', []])
     if k in ('list', 'seq', 'mseq'):
         n = draw(st.integers(0, 3 if depth < 2 else 1))
         items = [draw(rec(t[1])) for _ in range(n)]
@@ -628,6 +632,20 @@ def models(draw, feats=(), max_classes=5, doc_type=None):
             anc.add(b)
             stack += by[b].get('bases', [])
         refs = [o for o in objs if o not in anc]
+        if 'recursive' in feats and anc and draw(st.integers(0, 1)) == 0:
+            # e.g. Assembly(Part) with parts: List[Part]
+            a = draw(st.sampled_from(sorted(anc)))
+            avail = [x for x in PARAM_NAMES if x not in taken]
+            if avail:
+                pn = draw(st.sampled_from(avail))
+                taken.append(pn)
+                c['params'].append({'name': pn, 'type': draw(st.sampled_from(
+                    [['list', ['ref', a]], ['opt', ['ref', a]], ['dict', 'str', ['ref', a]]])),
+                    'default': ['none'] if draw(st.booleans()) else None})
+                if c['params'][-1]['default'] is None:
+                    del c['params'][-1]['default']
+                elif c['params'][-1]['type'][0] != 'opt':
+                    c['params'][-1]['type'] = ['opt', c['params'][-1]['type']]
         nnew = draw(st.integers(0 if base else 1, 3 if not base else 2))
         for _ in range(nnew):
             avail = [x for x in PARAM_NAMES if x not in taken]
@@ -949,7 +967,9 @@ def share(draw, t, groups=None):
             i = draw(st.integers(0, len(subs) - 2))
             j = draw(st.integers(i + 1, len(subs) - 1))
         (p, s), (q, s2) = subs[i], subs[j]
-        if q[:len(p)] == p or '&' in repr(s) or '*' in repr(s) or '*' in repr(s2) or '&' in repr(s2):
+        # the anchored subtree may itself contain aliases to earlier anchors
+        # (an aliased collection with an alias inside), but no anchor definitions
+        if q[:len(p)] == p or "'&'" in repr(s) or "'*'" in repr(s2) or "'&'" in repr(s2):
             continue
         t = T.set_at(t, q, ['*', name])
         t = T.set_at(t, p, ['&', name, s])
